@@ -191,6 +191,10 @@ pub const L_AND: u64 = 205;
 pub const L_SUB: u64 = 206;
 pub const L_NOT: u64 = 207;
 pub const L_OP3: u64 = 208;
+pub const L_OR: u64 = 209;
+pub const L_SHL: u64 = 220;
+pub const L_SHR: u64 = 221;
+pub const L_DIV: u64 = 222;
 use open_hypergraphs::lax::var::*;
 impl HasVar for Lab {
     fn var() -> Self {
@@ -235,6 +239,10 @@ sig_binop!(HasMul, mul, L_MUL);
 sig_binop!(HasSub, sub, L_SUB);
 sig_binop!(HasBitXor, bitxor, L_XOR);
 sig_binop!(HasBitAnd, bitand, L_AND);
+sig_binop!(HasBitOr, bitor, L_OR);
+sig_binop!(HasShl, shl, L_SHL);
+sig_binop!(HasShr, shr, L_SHR);
+sig_binop!(HasDiv, div, L_DIV);
 sig_unop!(HasNeg, neg, L_NEG);
 sig_unop!(HasNot, not, L_NOT);
 
